@@ -35,7 +35,8 @@ EXPLANATION = (
     'only with a known or catch-all tag and None for Void; ensure_str only on strings) hold on '
     'every enumerated path. R7: accepted short forms (bare string for Void/nullable tags, '
     'tag-only nullable members, null for nullable). Decides these structural parts, not the '
-    'value-level "accepts exactly".')
+    'value-level "accepts exactly".'
+    ' R8: the decoder validates against the generated validators, so generate_validator_constructor must forward every IR constructor parameter, wrap Nullable on every return, and generate_func_call must drop a keyword only for None (shared with C08-R3).')
 ASSUMPTIONS = [
     'CPython ast of the working tree is the program; structured control flow',
     'implicit exceptions are modelled only for: container operations on the untrusted document, '
@@ -642,6 +643,9 @@ def run(pm, ctx):
               for r in rets)
     ctx.check('C06-R7', okn, 'decode_nullable maps null to None', dn.loc,
               msg='decode_nullable does not accept null', key='C06-R7|%s|null' % dn.qualname)
+    ctx.rule('C06-R8', 'generated validator constructors carry every declared bound and the Nullable wrap')
+    from .C08 import validator_construction
+    validator_construction(pm, ctx, 'C06-R8')
 
 
 def _construct(site):
